@@ -19,7 +19,7 @@ DOC = {
  "C01.R2": "the race borrows the port set mutably; ActorPortSet has no Clone/Copy; it is constructed only in the cell constructors; the port set local is moved exactly once in each runtime start",
  "C01.R3": "start: one pre_start race, not in a cycle, behind the `status != Unstarted -> Err` gate; the loop task is spawned only on the Ok(Ok(Ok(state))) edge",
  "C01.R4": "processing loop: post_start raced once, not in a cycle, before the message-loop future exists; set_status(Running) and the loop only after post_start's Ok edges (both `?`)",
- "C01.R5": "post_stop raced once, not in a cycle, only after the loop future completed, on the Ok edges of the loop result and on the false edge of its was_killed flag; the flag and exit test originate from the step result's fields",
+ "C01.R5": "post_stop raced once, not in a cycle, only after the loop future completed, on the Ok edges of the loop result and on the false edge of its was_killed flag; the flag and exit test originate from the step result's fields; the Err outcome of a step leaves the loop on every path",
  "C01.R9": "= C03.R4: outcome table of the message step in both runtimes -- a handler (message or supervision) that returned Err leaves through the Err exit, a race lost to the signal yields the `killed` result, only Stop/Drained yield the graceful result: `post_stop only on a graceful exit, never after a kill or a handler error` (C01.R5 decides what the loop does with the flag, this rule who sets it)",
  "C01.R7": "(+ C03.R7/R8: no suspension between pick and handler start; kill_and_wait really kills) = C03.R1 + C03.R2 + C03.R6: `post_stop never after a kill` needs the kill signal to outrank stop in the listen and the callback in the race (signal polled first, biased) and every kill() to be delivered whatever the status",
  "C01.R8": "hook adapters (blanket `impl ThreadLocalActor for T: Actor`) delegate each hook to the same-named hook of the wrapped actor, once, unconditionally",
@@ -308,6 +308,14 @@ def r5(run, db):
                         te = lp.edge_of(site, c03.loop_result_fields(db)["exit"][1])
                         rets = [s for s, st in lp.aggregates(adt="std::result::Result", variant="Ok")]
                         okexit = bool(te) and all(lp.edge_dominates(te, s) for s in rets) and bool(rets)
+            # a handler error ends the loop: from the Err edge of the step result no path leads back to the next step
+            sbrs = try_branches_on(lp, sp)
+            errs = [b["break_edge"] for b in sbrs if b.get("break_edge")]
+            back = [e for e in errs if step[0].site in lp.reach(Site(e[1], 0))]
+            run.check(bool(errs) and not back, "%s|handler-error-ends-loop" % rt,
+                      "the Err outcome of a step (a handler that returned Err) leaves the message loop on every path: no later handler and no post_stop follow it",
+                      "the message loop can go on after a step failed (%s): a handler error is swallowed on some path (e.g. while Draining), later handlers run, the drain marker ends the loop gracefully and post_stop runs after a handler error" % (
+                          "a path from the Err edge of the step result leads back to the next step" if back else "the Err outcome of the step is not decided in the loop"), lp.where())
             run.check(okexit, "%s|exit-on-should_exit" % rt, "the loop leaves with Ok only on the true edge of the step result's `should_exit`", None, lp.where())
 
 
